@@ -357,6 +357,8 @@ class Loader:
                 c = _sym_const(v)
                 if c is not None:
                     g[name] = c
+            elif isinstance(v, type) and issubclass(v, float) and v.__module__.startswith("resonaate"):
+                g[name] = self.float_box(f"{v.__module__}:{v.__qualname__}")  # JulianDate / ScenarioTime: boxed, real dunders
             elif isinstance(v, (dict, tuple, list)) and name.isupper():
                 c = _sym_container(v)
                 if c is not None:
@@ -371,6 +373,27 @@ class Loader:
             if m2 == mod and q2.startswith("@"):
                 g[q2[1:]] = stub
         return g
+
+    def float_box(self, spec):
+        """symbolic stand-in for a float subclass of the repository: instances box a value, `float(box)` yields it, and
+        every method/operator is the extracted real method of the class"""
+        key = ("floatcls", spec)
+        if key in self.cache:
+            return self.cache[key]
+        flat = self.cls(spec)
+
+        def _new(cls, v=0.0):
+            o = object.__new__(cls)
+            o._v = v._pyvc_value() if hasattr(v, "_pyvc_value") else v
+            return o
+        # reflected operators are not overridden by the repository classes: Python falls back to plain float arithmetic
+        refl = {"__radd__": lambda self, o: o + self._v, "__rsub__": lambda self, o: o - self._v, "__rmul__": lambda self, o: o * self._v,
+                "__rtruediv__": lambda self, o: o / self._v, "__neg__": lambda self: -self._v, "__abs__": lambda self: abs(self._v)}
+        ns = {"__new__": _new, "_pyvc_value": lambda self: self._v, "__repr__": lambda self: f"{flat.__name__}<{self._v}>"}
+        ns.update({k: v for k, v in refl.items() if not hasattr(flat, k)})
+        Box = type(flat.__name__, (flat,), ns)
+        self.cache[key] = Box
+        return Box
 
     def cls(self, spec, extra_methods=None):
         """Flat class whose methods/properties are the extracted functions of `module:Class` and its
